@@ -1385,6 +1385,29 @@ def ob_plan(W, Ks, sched_is_lpsd=False):
             W.goal("C02/plan-L%d" % j, W.eq(p["L"][j], bins[j]["L"]))
 
 
+def ob_plan_by_name(W, name="lpsd", N=64):
+    """the scheduler is given by NAME: the constructor's own resolution code (_process_scheduler_config) followed by plan() on a
+    concrete small configuration with a SYMBOLIC Lmin -- 'building the plan through the analyzer never fails': the LPSD scheduler
+    is exempt from the configured Lmin however the name is resolved (tables, wrappers, memoised functions)"""
+    import speckit.analysis as A
+    import numpy as rnp
+    Lmin = W.int("Lmin", lo=1, hi=N)
+    if W.sym:
+        from symx.shim import clone_module, NumpyShim
+        GA = clone_module(A, dict(np=NumpyShim()))
+        cfgd = {"scheduler": name, "final_olap": 0.5, "bmin": 1.0, "Lmin": Lmin, "Kdes": 4, "force_target_nf": False, "Jdes": 6, "band": None, "num_patch_pts": None}
+        a = _mk_analyzer(W, GA, None, cfgd, N, 1.0, True)
+        GA["SpectrumAnalyzer"]._process_scheduler_config(a)
+        p = GA["SpectrumAnalyzer"].plan(a)
+    else:
+        if not 1 <= Lmin <= N:
+            return
+        a = A.SpectrumAnalyzer((rnp.arange(N) * 0.37) % 1.0, 1.0, scheduler=name, olap=0.5, bmin=1.0, Lmin=int(Lmin), Kdes=4, Jdes=6)
+        p = a.plan()
+    W.goal("C02/by-name/noraise", True)
+    W.goal("C02/by-name/plan-has-bins", int(p["nf"]) >= 1 and len(p["D"]) == int(p["nf"]))
+
+
 class _LpsdLike:
     """a stub scheduler that compares equal to lpsd_plan (plan() waives the Lmin check for the LPSD scheduler)"""
     def __init__(self, f, real):
